@@ -14,7 +14,7 @@ use std::hash::{Hash, Hasher};
 use std::str::FromStr;
 use std::sync::atomic::Ordering;
 
-pub const COUNTERS: &[&str] = &["arrivals_compared_with_from_scratch", "arrivals_after_null_move", "arrivals_with_ep_state", "fen_rebuilds_compared", "distinct_observable_positions", "repeat_arrivals_same_observable"];
+pub const COUNTERS: &[&str] = &["arrivals_compared_with_from_scratch", "arrivals_through_make_move_in_place", "arrivals_after_null_move", "arrivals_with_ep_state", "fen_rebuilds_compared", "distinct_observable_positions", "repeat_arrivals_same_observable"];
 
 pub struct C08 {
     /// observable position (128-bit fingerprint) -> get_hash()
@@ -88,16 +88,35 @@ impl PosOracle for C08 {
         run.sample_nth(n, 300_007, || json!({"kind": "judged state", "fen": s.key.fen(), "hash": format!("{:#018x}", b.get_hash()), "path": path_vec(&s.path).iter().map(|a| a.name()).collect::<Vec<_>>()}));
         Ok(())
     }
-    fn transition(&self, run: &Run, _pre: &St, a: &Act, post: &St) -> Judged {
+    fn transition(&self, run: &Run, pre: &St, a: &Act, post: &St) -> Judged {
         let how = match a {
             Act::Null => "through a null move",
             Act::Mv(_) => "by moves",
         };
-        self.arrival(run, post, how)
+        self.arrival(run, post, how)?;
+        // the same arrival through the in-place entry point
+        if let Act::Mv(m) = a {
+            let src = pre.lib;
+            let lm = lmove(*m);
+            let out = guard::lib(move || {
+                let mut out = Board::default();
+                src.make_move(lm, &mut out);
+                out
+            })
+            .map_err(|e| Finding::new("panic", "make_move panicked", e))?;
+            if out.get_hash() != post.lib.get_hash() {
+                return Err(Finding::new("incremental-hash", "by the in-place make_move", format!("get_hash() after make_move({m}) is {:#018x}, after make_move_new {:#018x}", out.get_hash(), post.lib.get_hash())));
+            }
+            if out == post.lib && std_hash(&out) != std_hash(&post.lib) {
+                return Err(Finding::new("std-hash", "by the in-place make_move", "equal boards, different std hash".to_string()));
+            }
+            run.add("arrivals_through_make_move_in_place", 1);
+        }
+        Ok(())
     }
 }
 
-pub const RULE: &str = "every ARRIVAL (transition, transpositions included; paths through up to 2 null moves) at every state of the bounded trees, families and children: incrementally maintained get_hash() == get_hash() of the same position built from scratch through the builder; a run-wide map observable position -> hash must stay single-valued; get_hash() survives to_string/from_str; boards equal under == have equal std Hash output. distinct_nontrivial = distinct observable positions that were arrived at more than once (transpositions / repeated constructions)";
+pub const RULE: &str = "every ARRIVAL (transition, transpositions included; paths through up to 2 null moves; each move applied through make_move_new and through the in-place make_move) at every state of the bounded trees, families and children: incrementally maintained get_hash() == get_hash() of the same position built from scratch through the builder; a run-wide map observable position -> hash must stay single-valued; get_hash() survives to_string/from_str; boards equal under == have equal std Hash output. distinct_nontrivial = distinct observable positions that were arrived at more than once (transpositions / repeated constructions)";
 
 pub fn run(tier: Tier) -> i32 {
     let (run, oracle) = run_e1("C08", tier, COUNTERS, C08 { seen: ShardMap::new(), repeated: ShardMap::new() }, standard_plan(tier, 1), RULE, &["observable positions are keyed by a 128-bit fingerprint in the single-valuedness map"]);
